@@ -10,14 +10,15 @@ use std::collections::BTreeMap;
 /// The reloader's loop is slowed down at its two schedule points (hook `verif::set_schedule_hook`: timing only),
 /// so that "load b; change b; notify; hot_reload" happens while the reloader sits between its request loop and
 /// its look at the event channel, right after a request consumed the event that had woken it up. The change of b
-/// was notified after b was loaded and before the call: the call must apply it.
+/// was notified after b was loaded and before the call: the call must apply it. In every other round the cache
+/// is cleared before b is loaded: the notification must not be examined before that (earlier) message either.
 fn widened_windows(rounds: u8, p0_us: u16, p1_us: u16, out: &mut Outcome) {
     use crate::memsrc::{MemSource, OwnedEntry, Variant};
     use crate::props::common::Ver;
     use assets_manager::hot_reloading::verif;
     use assets_manager::AssetCache;
     let src = MemSource::new(true);
-    let cache = AssetCache::with_source(src.handle());
+    let mut cache = AssetCache::with_source(src.handle());
     let put = |id: &str, v: u64| src.tree().put(id, "v", v.to_string().into_bytes(), Variant::Buffer);
     for round in 0..rounds {
         let (ka, kb) = (format!("a{round}"), format!("b{round}"));
@@ -33,6 +34,10 @@ fn widened_windows(rounds: u8, p0_us: u16, p1_us: u16, out: &mut Outcome) {
         src.send(&OwnedEntry::File(ka.clone(), "v".into()));
         cache.hot_reload();
         let a_now = a.read().0;
+        if round % 2 == 1 {
+            // variant: the cache is emptied first (a message that precedes the notification of b's change)
+            cache.clear();
+        }
         let Ok(b) = cache.load::<Ver>(&kb) else {
             verif::set_schedule_hook(None);
             return;
